@@ -1,6 +1,6 @@
 // C09 — code that is not JSX is left exactly as written; the transform is idempotent.
 import { mulberry32, held, violated, inconclusive, short, optLabel, hashStr } from './lib.mjs';
-import { genModule, listFixtureInputs, listCorpus, randomOptions, allOptionCombos, mutate } from './fuzz.mjs';
+import { genModule, listFixtureInputs, listCorpus, randomOptions, allOptionCombos, mutate, ODD_FORMS, ODD_TSX } from './fuzz.mjs';
 import * as C06 from './C06.mjs';
 import * as C10 from './C10.mjs';
 import * as C14 from './C14.mjs';
@@ -26,6 +26,9 @@ export function* generate({ tier, seed }) {
   // 2. real-world TSX + fixtures: frame alignment and idempotence
   for (const f of listCorpus('tsx')) yield one(f.src, f.syntax, tier === 'quick' ? [{}, combos[31]] : combos.filter((_, i) => i % 3 === 0), `corpus|${f.name}`);
   for (const f of listFixtureInputs()) yield one(f.src, f.syntax, [f.options, { ...f.options, optimize: !f.options.optimize }, combos[rng.int(32)]], `fixture|${f.name}`);
+  // 2b. the explicit list of legal-but-odd forms (typed / async / generator arrows, spread call arguments, directives ...)
+  for (const f of ODD_FORMS) { const src = /^(class|x =|let|a =|a \+=|\(\{|\/\*|\/\/|const|`|tag`)/.test(f) ? f : `const v = ${f};`; yield one(src, 'jsx', [{}, combos[31]], `odd|${f.slice(0, 40)}`); }
+  for (const f of ODD_TSX) yield one(f, 'tsx', [{ resolveType: true }, { resolveType: true, optimize: true, enableObjectSlots: false }], `oddtsx|${f.slice(0, 60)}`);
   // 3. JSX embedded in arbitrary surrounding code
   const nFuzz = tier === 'quick' ? 12000 : 250000;
   for (let i = 0; i < nFuzz; i++) {
